@@ -137,6 +137,23 @@ T = {
  "C09-r2m1": ("C09", "\\uXXXX escape of control characters formatted in decimal (same slip as C08-r2m2, written independently)", "quoted string containing U+000B or U+000E..U+001F", "C09 alphabet: U+001F"),
  "C09-r2m2": ("C09", "can_be_block_string: blank lines take part in the common indent (filter_map became map)", "three lines, every non-blank line indented, an empty interior line: ` a\\n\\n a`", "thorough tier caught it; C09 paragraph family (2..=4 lines from a line menu) added, so the quick tier does too"),
  "C33-m2": ("C33", "collect_fields: a fragment spread's fields replace nothing but are not merged into an already collected key", "same composite response key twice, the later occurrence from a named fragment with an extra sub-field", ""),
+ # round 3 (C15, C31, C32 had no round 2; C02, C05, C24 have open findings nearby; C26, C28)
+ "C02-r3m1": ("C02", "closing ] of a list type pushed without flushing the pending queue", "a list type whose ] is directly preceded by white space, a comma, a comment or a lexer-error fragment", ""),
+ "C02-r3m2": ("C02", "lexer-error text met after a limit error is never queued for the tree", "recursion limit reached and a lexically invalid fragment later in the input", ""),
+ "C32-r3m1": ("C32", "collect_fragment_spreads no longer looks inside inline fragments", "every spread of some fragment sits inside an inline fragment", ""),
+ "C32-r3m2": ("C32", "implements graph topological order computed children first", "interface Z implements X generated before `extend interface X implements W`", ""),
+ "C31-r3m1": ("C31", "FileId::new overflow guard loads the counter before fetch_add instead of checking the fetched value", "counter one below the wrap and a second thread between the load and the fetch_add", "model A gains across-the-wrap specifications (start closer to 2^63 than the number of allocations; oracle: no tagged or reserved id under every interleaving of fetch / reset / retry): C31 quick reports it"),
+ "C31-r3m2": ("C31", "BuiltInScalars table filled from whichever schema is validated first", "the first validate() of the process runs on a schema that lacks a built-in scalar", "C31 gains the first-use-order part (every sequence of 1..2 first operations of a fresh process from a menu of 7, then a fixed probe workload, one process each): C31 quick reports it"),
+ "C26-r3m1": ("C26", "complete_list_value decides item nullification by the list type, not the item type", "a list whose own nullability differs from its items' ([T!], [T]!) with a completion error in one item", ""),
+ "C26-r3m2": ("C26", "complete_value runs only the first merged field's sub-selection", "the same composite response key selected more than once in one collected set with different sub-selections", ""),
+ "C28-r3m1": ("C28", "coerce_variable_values: missing-value error for non-null variables hoisted ahead of defaults", "a non-null variable with a default, omitted from the variables map", ""),
+ "C28-r3m2": ("C28", "coerce_variable_value list branch returns null for a null item without consulting the item type", "a JSON array containing null where the item type is non-null", ""),
+ "C15-r3m1": ("C15", "duplicate root type look-up compares only with the previously recorded root", "three roots, query and subscription naming the same type with a different mutation type between them", ""),
+ "C15-r3m2": ("C15", "implemented interface 'must be defined' check accepts any defined type", "an implements entry naming a defined type that is not an interface (object, union)", ""),
+ "C05-r3m1": ("C05", "enum_value() no longer rejects true / false / null (also used by enum value definitions)", "an enum definition or extension declaring a value named true, false or null", ""),
+ "C05-r3m2": ("C05", "lexer look-ahead after a lone 0 / -0 no longer refuses a name-start character", "a literal exactly 0 or -0 glued to a letter other than e/E or to _, where a Name may follow a value", "C05 gains the glued-neighbours space (every base / boundary document with one separator removed) and base document s-zero-literals: C05 quick reports it"),
+ "C24-r3m1": ("C24", "defaultValue of a top-level String default printed with format!(\"\\\"{str}\\\"\") instead of the serializer", "a String default containing a quote, backslash, newline or control character", ""),
+ "C24-r3m2": ("C24", "__Schema.subscriptionType resolves from schema_def.mutation", "a schema whose mutation and subscription roots differ (at least one defined)", ""),
 }
 
 def parse_eval(path):
